@@ -125,7 +125,9 @@ class KeyAction(object):
                 raise PGPError("Key is not complete - please add a User ID!")
 
             with self.usage(key, kwargs.get('user', None)) as _key:
-                self.check_attributes(key)
+                # the conditions have to hold for the component that does the work, which may be a subkey that is
+                # protected differently from the key this was called on
+                self.check_attributes(_key)
 
                 # do the thing
                 return action(_key, *args, **kwargs)
